@@ -3,10 +3,11 @@
    Checks, in this order:
      DIFF  memory result  <> Store/MemoryRead.v   (the loops as coded)
      DIFF  sqlite result  <> Store/SqlRead.v      (the WHERE clauses as coded)
-   and, when the call is inside the documented contract (oc = 0, filter well-formed):
-     memory result vs Store/ReadSpec.v, sqlite result vs Store/ReadSpec.v, memory vs sqlite.
-   A disagreement there is KNOWN <flag> when the trigger of a listed finding (Store/ReadFlags.v)
-   is true for this store and filter on the side that deviates, PROP otherwise.
+   and, when the call is inside the documented contract (oc = 0, filter well-formed), each result
+   against Store/ReadSpec.v (hence also memory vs sqlite).  A deviation there is KNOWN <flag>
+   when the backend equals its model and the trigger of a listed open finding (Store/ReadFlags.v)
+   is true for this store and filter on the side that deviates; PROP otherwise (evaluated on the
+   implementation's own result, also when it differs from the model).
    Results are compared as sorted multisets of fully rendered tuples (condition name and
    context id included). *)
 
@@ -77,29 +78,30 @@ let decide ~(oc : bool) ~(contract : bool) ~(spec : tuple list) ~(option_result 
   if bad_status <> [] then
     "DIFF " ^ String.concat "; " (List.map (fun x -> Printf.sprintf "%s returned status %d" x.name (fst x.impl)) bad_status)
   else begin
-    let diffs = List.filter (fun x -> canon (snd x.impl) <> canon x.model) [m; s] in
-    if diffs <> [] then
-      "DIFF " ^ String.concat "; " (List.map (fun x ->
-        Printf.sprintf "%s backend=%s model=%s" x.name (pretty (snd x.impl)) (pretty x.model)) diffs)
-    else if option_result && List.exists (fun x -> (fst x.impl = 1) <> (x.model = [])) [m; s] then
-      "DIFF not-found status does not match the model"
-    else if oc || not contract then "OK"
+    let in_contract = not oc && contract in
+    let cs = canon spec in
+    let differs x = canon (snd x.impl) <> canon x.model
+                    || (option_result && (fst x.impl = 1) <> (x.model = [])) in
+    let off x = in_contract && canon (snd x.impl) <> cs in
+    (* a deviation from the documented meaning is excused only by a listed finding whose trigger
+       is true AND when the backend behaves exactly as its model says; otherwise the property's
+       own predicate fails on the implementation's result: PROP with the concrete read *)
+    let unexplained x = off x && (differs x || x.flags = []) in
+    let text () = Printf.sprintf "memory=%s sqlite=%s documented=%s" (pretty (snd m.impl)) (pretty (snd s.impl)) (pretty spec) in
+    if unexplained m || unexplained s then
+      "PROP " ^ String.concat "+" (List.map (fun x -> x.name) (List.filter unexplained [m; s]))
+      ^ " deviates from the documented meaning: " ^ text ()
     else begin
-      let cs = canon spec in
-      let m_off = canon (snd m.impl) <> cs and s_off = canon (snd s.impl) <> cs in
-      let ms_off = canon (snd m.impl) <> canon (snd s.impl) in
-      if not (m_off || s_off || ms_off) then "OK"
+      let diffs = List.filter differs [m; s] in
+      if diffs <> [] then
+        "DIFF " ^ String.concat "; " (List.map (fun x ->
+          Printf.sprintf "%s backend=%s model=%s" x.name (pretty (snd x.impl)) (pretty x.model)) diffs)
       else begin
-        let text = Printf.sprintf "memory=%s sqlite=%s documented=%s" (pretty (snd m.impl)) (pretty (snd s.impl)) (pretty spec) in
-        let unexplained = (m_off && m.flags = []) || (s_off && s.flags = []) in
-        if unexplained then "PROP " ^ text
-        else begin
-          let fl = (if m_off then m.flags else []) @ (if s_off then s.flags else []) in
-          match fl with
-          | [] -> "PROP " ^ text
-          | f :: rest -> Printf.sprintf "KNOWN %s %s%s" f text
-                           (if rest = [] then "" else " (also: " ^ String.concat "," rest ^ ")")
-        end
+        let fl = (if off m then m.flags else []) @ (if off s then s.flags else []) in
+        match fl with
+        | [] -> "OK"
+        | f :: rest -> Printf.sprintf "KNOWN %s %s%s" f (text ())
+                         (if rest = [] then "" else " (also: " ^ String.concat "," rest ^ ")")
       end
     end
   end
@@ -120,8 +122,7 @@ let f _id vs =
         decide ~oc ~contract:(wf_read_filter fl) ~spec:(read_spec s fl) ~option_result:false
           { name = "memory"; impl = rm; model = memory_read s fl;
             flags = flag (flag_read_all_ignores_conditions s fl) "read_all_ignores_conditions_memory" }
-          { name = "sqlite"; impl = rs; model = sql_read s fl;
-            flags = flag (flag_read_relationless_user s fl) "read_relationless_user_sqlite" }
+          { name = "sqlite"; impl = rs; model = sql_read s fl; flags = [] }
       | 3, [ot; oid; r; ut; uid; ur; c] ->
         let k = { k_otype = as_cbytes ot; k_oid = as_cbytes oid; k_rel = as_cbytes r; k_user = parse_user ut uid ur } in
         let cs = parse_conds c in
@@ -148,8 +149,7 @@ let f _id vs =
           { name = "memory"; impl = rm; model = memory_rswu s fl;
             flags = flag (flag_rswu_duplicate_user_filter fl) "rswu_duplicate_user_filter_memory" }
           { name = "sqlite"; impl = rs; model = sql_rswu s fl;
-            flags = flag (flag_rswu_relationless_user s fl) "rswu_relationless_user_sqlite"
-                    @ flag (flag_rswu_empty_object_ids fl) "rswu_empty_object_ids_sqlite" }
+            flags = flag (flag_rswu_empty_object_ids fl) "rswu_empty_object_ids_sqlite" }
       | _ -> "DIFF malformed-record"
     end
   | _ -> "DIFF malformed-record"
